@@ -15,6 +15,8 @@ namespace plan
       out.push_back({"real", "p_" + f});
     if (m.classes[c].ofield_class >= 0)
       out.push_back({m.classes[m.classes[c].ofield_class].name, "p_g" + std::to_string(c)});
+    if (m.classes[c].ofield_class >= 0 && m.classes[c].ofield_twice)
+      out.push_back({m.classes[m.classes[c].ofield_class].name, "p_h" + std::to_string(c)});
   }
   inline void Builder_ctor_walk(const Model &m, int c, const InstD &in, size_t &ri, size_t &oi, std::vector<std::string> &out)
   {
@@ -27,6 +29,8 @@ namespace plan
       out.push_back((sgn(v) < 0 ? "-" : "") + qtext(v));
     }
     if (m.classes[c].ofield_class >= 0)
+      out.push_back(m.insts[in.oargs[oi++]].name);
+    if (m.classes[c].ofield_class >= 0 && m.classes[c].ofield_twice)
       out.push_back(m.insts[in.oargs[oi++]].name);
   }
   inline void ctor_args(const Model &m, int c, const InstD &in, std::vector<std::string> &out)
@@ -272,13 +276,15 @@ namespace plan
     auto pred_text = [&](const PredD &p, const std::string &ind)
     {
       std::string s = ind + "predicate " + p.name + "(";
-      for (size_t i = 0; i < p.rparams.size(); ++i)
-        s += (i ? ", " : "") + std::string("real ") + p.rparams[i];
+      for (size_t i = p.own_from; i < p.rparams.size(); ++i)
+        s += (i > p.own_from ? ", " : "") + std::string("real ") + p.rparams[i];
       s += ")";
       const bool in_sv = p.cls >= 0 && m.classes[p.cls].is_sv;
-      if (!in_sv && p.kind == 1)
+      if (p.super >= 0)
+        s += " : " + m.preds[p.super].name;
+      else if (!in_sv && p.kind == 1)
         s += " : Interval";
-      if (!in_sv && p.kind == 2)
+      else if (!in_sv && p.kind == 2)
         s += " : Impulse";
       s += " {\n" + body_text(p) + ind + "}\n";
       return s;
@@ -299,6 +305,8 @@ namespace plan
         d += "  real " + f + ";\n";
       if (c.ofield_class >= 0)
         d += "  " + m.classes[c.ofield_class].name + " g" + std::to_string(ci) + ";\n";
+      if (c.ofield_class >= 0 && c.ofield_twice)
+        d += "  " + m.classes[c.ofield_class].name + " h" + std::to_string(ci) + ";\n";
       std::vector<std::pair<std::string, std::string>> ps, sps;
       ctor_params(m, static_cast<int>(ci), ps);
       ctor_params(m, c.super, sps);
@@ -320,6 +328,8 @@ namespace plan
         il += (il.empty() ? "" : ", ") + f + "(p_" + f + ")";
       if (c.ofield_class >= 0)
         il += (il.empty() ? "" : ", ") + std::string("g") + std::to_string(ci) + "(p_g" + std::to_string(ci) + ")";
+      if (c.ofield_class >= 0 && c.ofield_twice)
+        il += (il.empty() ? "" : ", ") + std::string("h") + std::to_string(ci) + "(p_h" + std::to_string(ci) + ")";
       d += (il.empty() ? "" : " : " + il) + " {}\n}\n";
     }
     for (auto &p : m.preds)
